@@ -1201,7 +1201,8 @@ Section Controller.
 
   (** ** process_acquire, process_expire *)
   Definition acquire_target (ep : endpoint) (my peer : Z) : option (endpoint * nat * esa) :=
-    match find (fun x => Z.eqb (my_addr (co (inner P (snd x)))) my && Z.eqb (peer_addr (co (inner P (snd x)))) peer)
+    match find (fun x => Z.eqb (my_addr (co (inner P (snd x)))) my && Z.eqb (peer_addr (co (inner P (snd x)))) peer
+                         && acquire_usable (state P (snd x)))
                (table ep) with
     | Some (cid, s) => Some (ep, cid, s)
     | None => match find_conf E ep my peer with
@@ -1218,7 +1219,8 @@ Section Controller.
     else do_call ep0 cid r.
   Lemma acquire_eq ep my peer a b i :
     acquire E ep my peer a b i =
-    match find (fun x => Z.eqb (my_addr (co (inner P (snd x)))) my && Z.eqb (peer_addr (co (inner P (snd x)))) peer)
+    match find (fun x => Z.eqb (my_addr (co (inner P (snd x)))) my && Z.eqb (peer_addr (co (inner P (snd x)))) peer
+                         && acquire_usable (state P (snd x)))
                (table ep) with
     | Some (cid, s) => do_call ep cid (process_trigger P (enter ep s) (ep_now E ep) (E_acquire a b i))
     | None => match find_conf E ep my peer with
@@ -1886,7 +1888,8 @@ Section TableClauses.
       issued, and whatever process_trigger returned (nothing) is what is sent *)
   Theorem unstarted_acquire_leaves_nothing (ep : endpoint) my peer tsi tsr index c ep0 cid (s0 : esa) :
     (forall x, In x (map fst (table E ep)) -> (x < next_cid E ep)%nat) ->
-    find (fun x : nat * esa => Z.eqb (my_addr (co (inner P (snd x)))) my && Z.eqb (peer_addr (co (inner P (snd x)))) peer)
+    find (fun x : nat * esa => Z.eqb (my_addr (co (inner P (snd x)))) my && Z.eqb (peer_addr (co (inner P (snd x)))) peer
+                               && acquire_usable (state P (snd x)))
          (table E ep) = None ->
     find_conf E ep my peer = Some c ->
     create E ep true (repeat 0%N 8) c my peer = Some (ep0, cid, s0) ->
